@@ -20,6 +20,7 @@ import IrVerif.Drive.Serde
 import IrVerif.Drive.SerdeScalar
 import IrVerif.Drive.Scope
 import IrVerif.Drive.ScopeMeta
+import IrVerif.Drive.ScopeSerdeBridge
 import IrVerif.Drive.SymExpr
 import IrVerif.Drive.SymExprSympy
 import IrVerif.Drive.Inline
@@ -33,6 +34,7 @@ def handlers : List Handler := [
   IrVerif.Drive.SymExprSympy.handle,
   IrVerif.Drive.Scope.handle,
   IrVerif.Drive.ScopeMeta.handle,
+  IrVerif.Drive.ScopeSerdeBridge.handle,
   IrVerif.Drive.Serde.handle,
   IrVerif.Drive.SerdeScalar.handle,
   IrVerif.Drive.Clone.handle,
